@@ -206,7 +206,7 @@ fn exec_t<T: Sc, F: Factory<T>>(sc: &Scenario) -> RunReport {
                             Ok(Ok(fr)) => {
                                 // the reference is sequential; the state was computed by the flavour the fit ran on
                                 let verdict = agree_with_reference::<T>(w, &fr.snap, sn, !f.was_parallel);
-                                if verdict == Agree::Rounding || verdict == Agree::Gated {
+                                if verdict == Agree::Rounding {
                                     rep.probe("final_state_equal_up_to_rounding_across_flavours");
                                 }
                                 if verdict == Agree::No {
